@@ -411,7 +411,9 @@ static void proxy_free(proxy_t *p) { int d, i; for (d = 0; d < 2; d++) for (i = 
 
 /* ------------------------------------------------------------------ endpoints */
 #define PMAXMSG 4
-typedef struct { size_t len, pad; } pmsg_t;       /* an application message: length, TLS 1.3 padding */
+#define PMAXCALLS (PMAXMSG + 2)
+#define PM_IS_APP(m) ((m).type == 0 || (m).type == 23)
+typedef struct { size_t len, pad; int type; } pmsg_t;   /* a planned message: length, TLS 1.3 padding, content type (0 = application data) */
 typedef struct {
 	int protocol, is_client;
 	TLS_CTX ctx; TLS_CONNECT *conn;          /* conn is an exactly sized heap block */
@@ -447,10 +449,10 @@ int tls13_record_encrypt(const BLOCK_CIPHER_KEY *key, const uint8_t iv[12],
 /* an honest peer written with the library's record functions and the connection's own keys and
  * sequence number: can emit what tls_send / tls13_send cannot (empty records for TLCP / TLS 1.2,
  * TLS 1.3 records with padding) */
-static int ep_send_crafted(endpoint_t *e, const uint8_t *data, size_t n, size_t pad) {
+static int ep_send_crafted(endpoint_t *e, const uint8_t *data, size_t n, size_t pad, int type) {
 	TLS_CONNECT *c = e->conn; uint8_t *rec = malloc(5 + n + 1), *out = malloc(5 + n + 600); size_t outlen = 0; int r;
 	uint8_t *seq = e->is_client ? c->client_seq_num : c->server_seq_num;
-	rec[0] = 23; rec[3] = (uint8_t)(n >> 8); rec[4] = (uint8_t)n; if (n) memcpy(rec + 5, data, n);
+	rec[0] = type ? (uint8_t)type : 23; rec[3] = (uint8_t)(n >> 8); rec[4] = (uint8_t)n; if (n) memcpy(rec + 5, data, n);
 	if (e->protocol == TLS_protocol_tls13) {
 		rec[1] = 3; rec[2] = 3;
 		r = tls13_record_encrypt(e->is_client ? &c->client_write_key : &c->server_write_key,
@@ -489,20 +491,24 @@ static void *endpoint_main(void *arg) {
 	cur_view = NULL; cur_empty_cert = 0; cur_sig_mode = 0; cur_sigs = NULL; forge_chain = NULL; forge13_cert = NULL; forge13_base = NULL; forge13_pos = -1;
 	e->post_send_ret = e->post_recv_ret = -99;
 	if (e->hs_ret == 1 && e->post) {
-		static const pmsg_t dflt[2] = { { 16, 0 }, { 16, 0 } };
+		static const pmsg_t dflt[2] = { { 16, 0, 0 }, { 16, 0, 0 } };
 		const pmsg_t *plan = e->nplan ? e->plan : dflt; int np = e->nplan ? e->nplan : 2;
-		uint8_t *buf = malloc(20000), *exp = malloc(20000); int i, next = 0, fails = 0; size_t j;
+		uint8_t *buf = malloc(20000), *exp = malloc(20000); int i, next = 0, fails = 0, napp = 0; size_t j;
+		/* messages of another content type than application data (authentic: protected with the connection's
+		   keys) must never come out of the receive function: each costs the receiver one refused call */
+		for (i = 0; i < np; i++) napp += PM_IS_APP(plan[i]);
 		for (i = 0; i < np; i++) {
 			size_t sent = 0; int r;
 			for (j = 0; j < plan[i].len; j++) buf[j] = pmsg_byte(e->is_client, i, j);
-			if (e->crafted || plan[i].len == 0 || plan[i].pad) r = ep_send_crafted(e, buf, plan[i].len, plan[i].pad);
+			if (e->crafted || plan[i].len == 0 || plan[i].pad || !PM_IS_APP(plan[i])) r = ep_send_crafted(e, buf, plan[i].len, plan[i].pad, plan[i].type);
 			else r = ep_send(e, buf, plan[i].len, &sent);
 			if (i == 0) e->post_send_ret = r;
 			if (r != 1) break;
 		}
-		for (i = 0; i < np + 2 && fails < 2; i++) {
+		for (i = 0; i < np + 2 && i < PMAXCALLS && fails < 2 + (np - napp); i++) {
 			size_t got = 0; int r;
-			if (e->post_accepted >= np) {         /* everything expected has arrived: one short look for anything further (a replayed copy) */
+			while (next < np && !PM_IS_APP(plan[next])) next++;
+			if (e->post_accepted >= napp) {         /* everything expected has arrived: one short look for anything further (a replayed copy) */
 				struct timeval tv = { 0, 250000 }; setsockopt(e->sock, SOL_SOCKET, SO_RCVTIMEO, &tv, sizeof tv);
 				fails = 1;
 			}
@@ -524,7 +530,7 @@ static void *endpoint_main(void *arg) {
 	return NULL;
 }
 
-/* "[x]len[:pad],len[:pad],..." -> plan; a leading x = every message through ep_send_crafted */
+/* "[x]len[:pad][tTYPE],len[:pad][tTYPE],..." -> plan; tTYPE = content type of the (crafted) record; a leading x = every message through ep_send_crafted */
 static void ep_plan(endpoint_t *e, const char *spec) {
 	e->nplan = 0; e->crafted = 0;
 	if (!spec || !strcmp(spec, "d")) return;
@@ -532,6 +538,8 @@ static void ep_plan(endpoint_t *e, const char *spec) {
 	while (*spec && e->nplan < PMAXMSG) {
 		char *end; e->plan[e->nplan].len = strtoul(spec, &end, 10); e->plan[e->nplan].pad = 0;
 		if (*end == ':') e->plan[e->nplan].pad = strtoul(end + 1, &end, 10);
+		e->plan[e->nplan].type = 0;
+		if (*end == 't') e->plan[e->nplan].type = (int)strtoul(end + 1, &end, 10);
 		e->nplan++; spec = *end == ',' ? end + 1 : end;
 	}
 }
